@@ -46,17 +46,19 @@ const (
 	kMalformed
 	kBankSend
 	kEnvSupply // supply of a denom changed by OTHER modules (inflation minting, fee handling) on accounts outside the universe; tx mode only
+	kTree      // ONE transaction whose call tree makes several ERC-20 calls from nested frames, some of which fail
 )
 
-var kindName = []string{"name", "symbol", "decimals", "totalSupply", "balanceOf", "allowance", "transfer", "transferFrom", "approve", "burn", "burnFrom", "malformed", "bankSend", "envSupply"}
+var kindName = []string{"name", "symbol", "decimals", "totalSupply", "balanceOf", "allowance", "transfer", "transferFrom", "approve", "burn", "burnFrom", "malformed", "bankSend", "envSupply", "tree"}
 
 const (
 	viaDirect = iota
 	viaStrict
 	viaLenient
+	viaTree
 )
 
-var viaName = []string{"direct", "proxyStrict", "proxyLenient"}
+var viaName = []string{"direct", "proxyStrict", "proxyLenient", "tree"}
 
 type opx struct {
 	kind   kind
@@ -72,12 +74,15 @@ type opx struct {
 	from, to common.Address
 	denom    int
 	amt      *big.Int
+	// kTree
+	tree *fnode
 }
 
 type obsx struct {
-	ok   bool
-	ret  []byte
-	logs []*ethtypes.Log
+	ok    bool
+	ret   []byte
+	logs  []*ethtypes.Log
+	vmErr string // diagnostics only, never compared
 }
 
 var max256 = Bsub(Pow2(256), 1)
@@ -137,7 +142,13 @@ func (o *opx) moves() (from, to common.Address, amt *big.Int, ok bool) {
 	return common.Address{}, common.Address{}, nil, false
 }
 
-func (o *opx) coq(w *world) string {
+func (o *opx) coq(w *world) string { return o.coqAs(w, "Call") }
+
+// coqAs renders a call with the given constructor: "Call" (an operation of a history) or "FLeaf" (a leaf of a call tree).
+func (o *opx) coqAs(w *world, ctor string) string {
+	if o.kind == kTree {
+		return o.tree.coq(w)
+	}
 	if o.kind == kEnvSupply {
 		return fmt.Sprintf("(EnvSupply %s %s)", CqZi(int64(o.denom)), CqZ(o.amt))
 	}
@@ -175,7 +186,7 @@ func (o *opx) coq(w *world) string {
 	case kMalformed:
 		c = "Malformed"
 	}
-	return fmt.Sprintf("(Call %s %s %s)", CqZ(addrZ(o.caller)), CqZ(addrZ(w.tok[o.tok].addr)), c)
+	return fmt.Sprintf("(%s %s %s %s)", ctor, CqZ(addrZ(o.caller)), CqZ(addrZ(w.tok[o.tok].addr)), c)
 }
 
 func (o *opx) desc(w *world) string {
@@ -184,6 +195,9 @@ func (o *opx) desc(w *world) string {
 			return w.uniName[i]
 		}
 		return a.Hex()
+	}
+	if o.kind == kTree {
+		return "tree " + o.tree.desc(w)
 	}
 	if o.kind == kEnvSupply {
 		return fmt.Sprintf("envSupply %s %s", w.denoms[o.denom], o.amt)
@@ -281,6 +295,9 @@ func (w *world) pickAmount(r *Rng, s *snap, from, spender common.Address, denom 
 }
 
 func (w *world) genOp(r *Rng, s *snap, txMode bool) *opx {
+	if r.Chance(14) {
+		return w.genTree(r, s, txMode)
+	}
 	o := &opx{tok: r.Intn(2)}
 	weights := []int{1, 1, 1, 3, 6, 6, 20, 24, 18, 6, 9, 3, 8}
 	tot := 0
@@ -295,7 +312,6 @@ func (w *world) genOp(r *Rng, s *snap, txMode bool) *opx {
 		}
 		p -= x
 	}
-	denom := w.tok[o.tok].denomID
 	if o.kind == kBankSend {
 		senders := []common.Address{w.eoa[0].GetEthAddress(), w.eoa[1].GetEthAddress(), w.eoa[2].GetEthAddress(), w.vest.GetEthAddress()}
 		o.from = senders[r.Intn(len(senders))]
@@ -337,6 +353,13 @@ func (w *world) genOp(r *Rng, s *snap, txMode bool) *opx {
 	case viaLenient:
 		o.caller = w.proxyL
 	}
+	w.genArgs(r, s, o)
+	return o
+}
+
+// genArgs draws the argument words of a call of kind o.kind made by o.caller.
+func (w *world) genArgs(r *Rng, s *snap, o *opx) {
+	denom := w.tok[o.tok].denomID
 	ci := w.idx(o.caller)
 	// owners that granted the caller something / spenders the caller granted something
 	var granters, grantees []common.Address
@@ -348,7 +371,7 @@ func (w *world) genOp(r *Rng, s *snap, txMode bool) *opx {
 			grantees = append(grantees, a)
 		}
 	}
-	callers := []common.Address{w.eoa[0].GetEthAddress(), w.eoa[1].GetEthAddress(), w.eoa[2].GetEthAddress(), w.vest.GetEthAddress(), w.proxyS, w.proxyL}
+	callers := []common.Address{w.eoa[0].GetEthAddress(), w.eoa[1].GetEthAddress(), w.eoa[2].GetEthAddress(), w.vest.GetEthAddress(), w.proxyS, w.proxyL, w.hosts[0], w.hosts[1]}
 	switch o.kind {
 	case kBalanceOf:
 		o.w = []*big.Int{w.pickAddrWord(r, nil)}
@@ -400,7 +423,6 @@ func (w *world) genOp(r *Rng, s *snap, txMode bool) *opx {
 	if o.kind != kMalformed && r.Chance(5) {
 		o.extra = r.BigBits(8 * (1 + r.Intn(40))).Bytes()
 	}
-	return o
 }
 
 // ------------------------------------------------------------------ execution
@@ -410,7 +432,15 @@ func (w *world) applyKeeper(o *opx) obsx {
 	c := w.c
 	ctx := c.Ctx()
 	to := w.tok[o.tok].addr
-	data := o.calldata()
+	gas := uint64(3_000_000)
+	var data []byte
+	if o.kind == kTree {
+		fr := o.tree.frame(w)
+		gas = fr.Budget() // sets the gas operand of every frame: before Encode
+		to, data = fr.Host, fr.Encode(false)
+	} else {
+		data = o.calldata()
+	}
 	switch o.via {
 	case viaStrict:
 		data = append(append([]byte{}, to.Bytes()...), data...)
@@ -420,7 +450,7 @@ func (w *world) applyKeeper(o *opx) obsx {
 		to = w.proxyL
 	}
 	base := c.BaseFee(ctx)
-	msg := ethtypes.NewMessage(o.sender, &to, c.Nonce(ctx, o.sender), big.NewInt(0), 3_000_000, base, base, base, data, nil, o.fake)
+	msg := ethtypes.NewMessage(o.sender, &to, c.Nonce(ctx, o.sender), big.NewInt(0), gas, base, base, base, data, nil, o.fake)
 	res, err := c.App.EvmKeeper.ApplyMessage(ctx, msg, evmtypes.NewNoOpTracer(), true)
 	require.NoError(w.t, err)
 	return w.decodeResponse(o, res)
@@ -429,7 +459,7 @@ func (w *world) applyKeeper(o *opx) obsx {
 func (w *world) decodeResponse(o *opx, res *evmtypes.MsgEthereumTxResponse) obsx {
 	var rc ethtypes.Receipt
 	require.NoError(w.t, rc.UnmarshalBinary(res.MarshalledReceipt))
-	ob := obsx{ok: res.VmError == "", ret: res.Ret, logs: rc.Logs}
+	ob := obsx{ok: res.VmError == "", ret: res.Ret, logs: rc.Logs, vmErr: res.VmError}
 	require.Equal(w.t, ob.ok, rc.Status == ethtypes.ReceiptStatusSuccessful)
 	if o.via == viaLenient {
 		// the forwarder itself must never fail
@@ -467,6 +497,11 @@ func (w *world) coqOut(o *opx, ob obsx) string {
 	}
 	var ret string
 	switch o.kind {
+	case kTree:
+		if len(ob.ret) != 32 {
+			return "XBad"
+		}
+		ret = "(RUint " + CqZ(new(big.Int).SetBytes(ob.ret)) + ")"
 	case kBankSend, kEnvSupply:
 		ret = "RNone"
 	case kName, kSymbol:
@@ -637,8 +672,14 @@ func TestDriverErc20(t *testing.T) {
 				sb.WriteString(";\n")
 			}
 			first = false
-			sb.WriteString(fmt.Sprintf("    {| s_op := %s; s_out := %s; s_check := %s; s_dbal := %s; s_dsup := %s; s_dallow := %s |}",
-				o.coq(w), w.coqOut(o, ob), CqBool(check), db, ds, da))
+			wrap := "XOp"
+			if o.kind == kTree {
+				wrap = "XTx"
+				side.Count(fmt.Sprintf("tree:root-keep:%v", o.tree.keep))
+				o.tree.count(side, true)
+			}
+			sb.WriteString(fmt.Sprintf("    {| s_op := (%s %s); s_out := %s; s_check := %s; s_dbal := %s; s_dsup := %s; s_dallow := %s |}",
+				wrap, o.coq(w), w.coqOut(o, ob), CqBool(check), db, ds, da))
 			d := o.desc(w) + " => " + map[bool]string{true: "ok", false: "err"}[ob.ok]
 			hd.Ops = append(hd.Ops, d)
 			canon.WriteString(d + ";")
@@ -716,8 +757,16 @@ func (w *world) runBlock(group []*opx) []item {
 		if o.via == viaLenient {
 			proxy = w.proxyL
 		}
-		data := append(append([]byte{}, w.tok[o.tok].addr.Bytes()...), o.calldata()...)
-		bz, _, err := c.EthTxBytes(w.relayer, &ethtypes.DynamicFeeTx{Nonce: n0 + uint64(i), GasFeeCap: cap2, GasTipCap: big.NewInt(0), Gas: 2_000_000, To: &proxy, Value: big.NewInt(0), Data: data})
+		gas := uint64(2_000_000)
+		var data []byte
+		if o.kind == kTree {
+			fr := o.tree.frame(w)
+			gas = fr.Budget() // sets the gas operand of every frame: before Encode
+			proxy, data = fr.Host, fr.Encode(false)
+		} else {
+			data = append(append([]byte{}, w.tok[o.tok].addr.Bytes()...), o.calldata()...)
+		}
+		bz, _, err := c.EthTxBytes(w.relayer, &ethtypes.DynamicFeeTx{Nonce: n0 + uint64(i), GasFeeCap: cap2, GasTipCap: big.NewInt(0), Gas: gas, To: &proxy, Value: big.NewInt(0), Data: data})
 		require.NoError(w.t, err)
 		txs = append(txs, bz)
 	}
